@@ -210,13 +210,13 @@ CHECKS['C18'] = dict(
     jobs=[dict(name='clean', harness='c18_clean.cc', units=PIPELINE, reach=['clean-all', 'clean-target', 'clean-rule', 'clean-dead', 'dry-run'],
                bounds='mode in {all, target, rule, cleandead} x argument menus x -g x -n x which built file is missing (14)')])
 
-SCENARIOS.append('discovered_generated_no_path')
+SCENARIOS.append('discovered_generated_no_path'); SCENARIOS.append('dyndep_two_files')
 CHECKS['C10'] = dict(
     title='discovered dependencies count exactly like declared implicit inputs',
     level_text='Symbolic histories over the whole real pipeline on shapes whose commands report extra dependencies through a plain depfile, deps=gcc or deps=msvc, pointing at sources or at generated files (with and without a manifest path to the generator). The reference gives discovered dependencies the semantics of declared implicit inputs: a monitor at CommandRunner::StartCommand asserts every generated file the command reads is already up to date, after a successful build the consumer must equal the from-scratch content, and a vanished discovered header must lead to a rebuild, never to the missing-source error.',
     level_note='Trusted base as C01. The comparison is against the declared-implicit-input semantics computed by the harness reference, not against a second run of a rewritten manifest. Bounds: catalogue shapes, history length 2.',
     assumptions=_PIPE_ASSUME,
-    jobs=_hist_jobs('CHECK_C10', 2, 3, [1, 3, 4, 8], reach=('built', 'incremental-build', 'header-vanished')) +
+    jobs=_hist_jobs('CHECK_C10', 2, 3, [1, 3, 4], reach=('built', 'incremental-build', 'header-vanished')) + _hist_jobs('CHECK_C10', 2, 3, [8]) +
          _hist_jobs('CHECK_C10', 1, 2, [14], extra_defs=['PREBUILD_SEQ'], reach=('built',)))
 CHECKS['C11'] = dict(
     title='dyndep information behaves as if it had been written in the manifest',
@@ -224,4 +224,5 @@ CHECKS['C11'] = dict(
     level_note='Trusted base as C01; the list of complete prefixes of the truncated file is computed by hand in the harness. Bounds: the dyndep shapes of the catalogue, history length 2, one dyndep file.',
     assumptions=_PIPE_ASSUME,
     jobs=_hist_jobs('CHECK_C11', 2, 3, [7], reach=('built', 'incremental-build')) +
-         _mode_jobs('MODE_DYNDEP_BAD', [7], suffix='_bad', reach=('truncated', 'rejected', 'accepted'), bounds='dyndep text truncated at every byte or one of 7 ill-formed variants; dyndep file produced during the build or already present; -j in {1,2}'))
+         _mode_jobs('MODE_DYNDEP_BAD', [7, 15], suffix='_bad', reach=('truncated', 'rejected', 'accepted'), bounds='dyndep text truncated at every byte or one of 7 (8 with two dyndep files) ill-formed variants; dyndep file produced during the build or already present; -j in {1,2}') +
+         _hist_jobs('CHECK_C11', 2, 2, [15]))
